@@ -455,7 +455,7 @@ def correspondence(ctx):
     core.assert_repo_loaded()
     rig = Rig(ctx)
     evaluate(ctx, rig, CORPUS)  # regression witnesses of the repaired D17 / D17l / D17m: must pass
-    evaluate(ctx, rig, [gen_case(ctx.rng) for _ in range(ctx.pick(80, 1500))])
+    evaluate(ctx, rig, [gen_case(ctx.rng) for _ in range(ctx.pick(80, 600))])
 
 
 def search(ctx):
